@@ -73,6 +73,9 @@ def _install_hook():
         _hook_installed = True
 
 
+L_BODIES = {404: b"introuvable: caf\xe9 ferm\xe9", 500: b"\x1f\x8b\x08\x00\x00\x00\x00\x00\x02\xff\xb3\xc9(\xc9\xcd\xb1\x03\x00", 503: b""}
+
+
 def sym_kind(sym):
     return sym[0]
 
@@ -335,7 +338,8 @@ class ScriptedPeer(object):
                     conn.setsockopt(socket.SOL_SOCKET, socket.SO_LINGER, struct.pack("ii", 1, 0))
                 return
             elif k == "L":
-                self._send(conn, self._response(st, b"busy!"))
+                # error pages are not JSON and need not be UTF-8 (Latin-1 text, a compressed page) nor non-empty
+                self._send(conn, self._response(st, L_BODIES.get(st, b"busy!")))
             elif k == "N":
                 self._send(conn, self._response(st, b"server error, no length", with_length=False))
                 return
